@@ -243,6 +243,29 @@ def run(ctx):
             ok = isinstance(vs[0], ast.BoolOp) and isinstance(vs[0].op, ast.Or) and "np.ma.is_masked(field)" in closure and "np.isnan(field)" in closure and "np.isclose(field, no_data)" in closure
             why = "guard flag %s := %s" % (g, closure[:160])
     ctx.check(ok, "R08.3", site, "the NaN-blind kernel `structured` is reachable only when the field has no mask, no NaN and no no-data value: " + why, "structured-guard")
+    # missing values are ADDED to the user's mask: the mask of the rebuilt field is (old mask) OR (missing)
+    miss_if = [s for s in ast.walk(vea) if isinstance(s, ast.If) and ast.unparse(s.test) == "missing"]
+    rebuilt = [n for s in miss_if for n in ast.walk(s) if isinstance(n, ast.Assign) and ast.unparse(n.targets[0]) == "field"]
+    ok = False
+    got = "no rebuild of the field under `if missing:`"
+    if len(rebuilt) == 1 and isinstance(rebuilt[0].value, ast.Call):
+        call = rebuilt[0].value
+        fn_t = ast.unparse(call.func)
+        got = ast.unparse(call)[:100]
+        if fn_t in ("np.ma.array", "np.ma.masked_array"):
+            mk = [k.value for k in call.keywords if k.arg == "mask"]
+            if len(mk) == 1:
+                m_ = mk[0]
+                parts = []
+                if isinstance(m_, ast.Call) and ast.unparse(m_.func) == "np.logical_or":
+                    parts = [ast.unparse(a) for a in m_.args]
+                elif isinstance(m_, ast.BinOp) and isinstance(m_.op, ast.BitOr):
+                    parts = [ast.unparse(m_.left), ast.unparse(m_.right)]
+                old_mask = {"field.mask", "np.ma.getmaskarray(field)", "np.ma.getmask(field)"}
+                ok = len(parts) == 2 and "missing_mask" in parts and bool(set(parts) & old_mask)
+        elif fn_t == "np.ma.masked_where":
+            ok = len(call.args) >= 2 and ast.unparse(call.args[0]) == "missing_mask" and ast.unparse(call.args[1]) == "field"
+    ctx.check(ok, "R08.3", site, "missing values are added to the mask the field already carries (old mask OR missing): %s" % got, "mask-union")
     mcalls = [n for n in ast.walk(vea) if isinstance(n, ast.Call) and isinstance(n.func, ast.Name) and n.func.id == "_ma_structured"]
     ok = len(mcalls) == 1 and len(mcalls[0].args) >= 2 and ast.unparse(mcalls[0].args[1]) == "mask"
     ctx.check(ok, "R08.3", site, "masked path hands the mask (incl. missing values) to ma_structured", "ma-call")
